@@ -111,7 +111,7 @@ impl BlockDevice for NullDisk {
 // device-call index (reads scribble the buffer), crash point (writes with log
 // index >= crash_at are dropped = the persisted image).
 // ---------------------------------------------------------------------------
-pub const LOG_CAP: usize = 24;
+pub const LOG_CAP: usize = 14;
 
 pub struct SymDisk<const N: usize> {
     pub base: u32,
